@@ -310,6 +310,9 @@ func (c *compiler) compileFlow(file *ast.File, call *ast.CallExpr) *flow {
 		receivers: new(typeutil.Map),
 	}
 
+	// Types provided with cff.Params, across all cff.Params options.
+	provided := new(typeutil.Map) // *type => *input
+
 	for _, arg := range call.Args[1:] {
 		arg := astutil.Unparen(arg)
 
@@ -330,7 +333,6 @@ func (c *compiler) compileFlow(file *ast.File, call *ast.CallExpr) *flow {
 			c.errf(c.nodePosition(arg), "%q is an invalid cff.Flow Option", f.Name())
 			continue
 		case "Params":
-			provided := new(typeutil.Map) // *type => *input
 			for _, i := range ce.Args {
 				in := c.compileInput(i)
 				if other, _ := provided.At(in.Type).(*input); other != nil {
